@@ -5,7 +5,7 @@ namespace GoLevel.Locks
 open CompErr
 set_option linter.unusedSimpArgs false
 
-theorem step_pinvB_h (s t : St) (f : Bool) (cfg : Cfg) (hfx : Fixed3 cfg) (hm : cfg.m = .asCoded)
+theorem step_pinvB_h (s t : St) (f : Bool) (cfg : Cfg) (hfx : Fixed3 cfg) (hm : cfg.m = .asCoded cfg.closeSel)
     (h4 : cfg.setReadOnlyReleasesOnClose = true ∨ NoSR s) (hsh : cfg.HandsOver) (hw : CwlOk cfg s) (h : Step cfg f s t)
     (inv : PInvB s) : PInvB t := by
   unfold PInvB CwlOk at *
@@ -449,6 +449,13 @@ theorem step_pinvB_h (s t : St) (f : Bool) (cfg : Cfg) (hfx : Fixed3 cfg) (hm : 
     have l2 := le_tot clAllW _ _ _ hi
     have l3 := le_tot clPreW _ _ _ hi
     (try simp only [St.setDone, St.setBg, ↓reduceIte, Bool.false_eq_true, Bool.and_false, Bool.and_true, Bool.false_and, Bool.true_and]) <;> (repeat' split) <;> simp_all [tot_set_eq _ _ _ _ _ hi, tot_ackWs_srw', tot_ackWs_lgw, tot_ackWs_clall, tot_ackWs_clpre, b2n_true, b2n_false, clearW_idle, clearW_exited, clearW_parked, clearW_eq_exited, clearW_eq_parked, srW, lgW, clAllW, clPreW, St.bg, onOk, onErr, selNext, afterSetErr, srAllW, nextC, roSets] <;> (try omega) <;> (try (cases hk : s.ehTok <;> cases hk2 : s.cwl <;> simp_all [b2n_true, b2n_false] <;> omega))
+  | clAcqKept _ i hi he hk hs =>
+    clear h4
+    have l0 := le_tot srW _ _ _ hi
+    have l1 := le_tot lgW _ _ _ hi
+    have l2 := le_tot clAllW _ _ _ hi
+    have l3 := le_tot clPreW _ _ _ hi
+    (try simp only [St.setDone, St.setBg, ↓reduceIte, Bool.false_eq_true, Bool.and_false, Bool.and_true, Bool.false_and, Bool.true_and]) <;> (repeat' split) <;> simp_all [tot_set_eq _ _ _ _ _ hi, tot_ackWs_srw', tot_ackWs_lgw, tot_ackWs_clall, tot_ackWs_clpre, b2n_true, b2n_false, clearW_idle, clearW_exited, clearW_parked, clearW_eq_exited, clearW_eq_parked, srW, lgW, clAllW, clPreW, St.bg, onOk, onErr, selNext, afterSetErr, srAllW, nextC, roSets] <;> (try omega) <;> (try (cases hk : s.ehTok <;> cases hk2 : s.cwl <;> simp_all [b2n_true, b2n_false] <;> omega))
   | clWait _ i hi hm ht =>
     clear h4
     have l0 := le_tot srW _ _ _ hi
@@ -515,7 +522,7 @@ theorem step_pinvB_h (s t : St) (f : Bool) (cfg : Cfg) (hfx : Fixed3 cfg) (hm : 
     clear h4
     cases b <;> cases ph <;> (try simp only [St.setDone, St.setBg, ↓reduceIte, Bool.false_eq_true, Bool.and_false, Bool.and_true, Bool.false_and, Bool.true_and]) <;> (repeat' split) <;> simp_all [tot_ackWs_srw', tot_ackWs_lgw, tot_ackWs_clall, tot_ackWs_clpre, b2n_true, b2n_false, clearW_idle, clearW_exited, clearW_parked, clearW_eq_exited, clearW_eq_parked, srW, lgW, clAllW, clPreW, St.bg, onOk, onErr, selNext, afterSetErr, srAllW, nextC, roSets] <;> (try omega) <;> (try (rcases hx with hx | hx <;> simp_all))
 
-theorem step_pinvB_b (s t : St) (f : Bool) (cfg : Cfg) (hfx : Fixed3 cfg) (hm : cfg.m = .asCoded)
+theorem step_pinvB_b (s t : St) (f : Bool) (cfg : Cfg) (hfx : Fixed3 cfg) (hm : cfg.m = .asCoded cfg.closeSel)
     (h4 : cfg.setReadOnlyReleasesOnClose = true ∨ NoSR s) (hsh : cfg.Blind) (hw : CwlOk cfg s) (h : Step cfg f s t)
     (inv : PInvB s) : PInvB t := by
   unfold PInvB CwlOk at *
@@ -959,6 +966,13 @@ theorem step_pinvB_b (s t : St) (f : Bool) (cfg : Cfg) (hfx : Fixed3 cfg) (hm : 
     have l2 := le_tot clAllW _ _ _ hi
     have l3 := le_tot clPreW _ _ _ hi
     (try simp only [St.setDone, St.setBg, ↓reduceIte, Bool.false_eq_true, Bool.and_false, Bool.and_true, Bool.false_and, Bool.true_and]) <;> (repeat' split) <;> simp_all [tot_set_eq _ _ _ _ _ hi, tot_ackWs_srw', tot_ackWs_lgw, tot_ackWs_clall, tot_ackWs_clpre, b2n_true, b2n_false, clearW_idle, clearW_exited, clearW_parked, clearW_eq_exited, clearW_eq_parked, srW, lgW, clAllW, clPreW, St.bg, onOk, onErr, selNext, afterSetErr, srAllW, nextC, roSets] <;> (try omega) <;> (try (cases hk : s.ehTok <;> cases hk2 : s.cwl <;> simp_all [b2n_true, b2n_false] <;> omega))
+  | clAcqKept _ i hi he hk hs =>
+    clear h4
+    have l0 := le_tot srW _ _ _ hi
+    have l1 := le_tot lgW _ _ _ hi
+    have l2 := le_tot clAllW _ _ _ hi
+    have l3 := le_tot clPreW _ _ _ hi
+    (try simp only [St.setDone, St.setBg, ↓reduceIte, Bool.false_eq_true, Bool.and_false, Bool.and_true, Bool.false_and, Bool.true_and]) <;> (repeat' split) <;> simp_all [tot_set_eq _ _ _ _ _ hi, tot_ackWs_srw', tot_ackWs_lgw, tot_ackWs_clall, tot_ackWs_clpre, b2n_true, b2n_false, clearW_idle, clearW_exited, clearW_parked, clearW_eq_exited, clearW_eq_parked, srW, lgW, clAllW, clPreW, St.bg, onOk, onErr, selNext, afterSetErr, srAllW, nextC, roSets] <;> (try omega) <;> (try (cases hk : s.ehTok <;> cases hk2 : s.cwl <;> simp_all [b2n_true, b2n_false] <;> omega))
   | clWait _ i hi hm ht =>
     clear h4
     have l0 := le_tot srW _ _ _ hi
@@ -1025,7 +1039,7 @@ theorem step_pinvB_b (s t : St) (f : Bool) (cfg : Cfg) (hfx : Fixed3 cfg) (hm : 
     clear h4
     cases b <;> cases ph <;> (try simp only [St.setDone, St.setBg, ↓reduceIte, Bool.false_eq_true, Bool.and_false, Bool.and_true, Bool.false_and, Bool.true_and]) <;> (repeat' split) <;> simp_all [tot_ackWs_srw', tot_ackWs_lgw, tot_ackWs_clall, tot_ackWs_clpre, b2n_true, b2n_false, clearW_idle, clearW_exited, clearW_parked, clearW_eq_exited, clearW_eq_parked, srW, lgW, clAllW, clPreW, St.bg, onOk, onErr, selNext, afterSetErr, srAllW, nextC, roSets] <;> (try omega) <;> (try (rcases hx with hx | hx <;> simp_all))
 
-theorem step_pinvB (s t : St) (f : Bool) (cfg : Cfg) (hfx : Fixed3 cfg) (hm : cfg.m = .asCoded)
+theorem step_pinvB (s t : St) (f : Bool) (cfg : Cfg) (hfx : Fixed3 cfg) (hm : cfg.m = .asCoded cfg.closeSel)
     (h4 : cfg.setReadOnlyReleasesOnClose = true ∨ NoSR s) (hsh : cfg.Shape) (hw : CwlOk cfg s) (h : Step cfg f s t)
     (inv : PInvB s) : PInvB t :=
   hsh.elim (fun hh => step_pinvB_h s t f cfg hfx hm h4 hh hw h inv) (fun hb => step_pinvB_b s t f cfg hfx hm h4 hb hw h inv)
